@@ -46,6 +46,14 @@ def _ramp_pad(vector, pad_width, iaxis, kwargs):
         vector[-r:] = vector[-r - 1] * np.arange(r, 0, -1) / (r + 1)
 
 
+def _pad_with(vector, pad_width, iaxis, kwargs):
+    """the callable of numpy.pad's own documentation example: writes a constant into the padded ends.  It is meant for
+    axes that are really padded (with a zero width `vector[-0:]` is the whole vector)"""
+    pad_value = kwargs.get("padder", 10)
+    vector[:pad_width[0]] = pad_value
+    vector[-pad_width[1]:] = pad_value
+
+
 def kaldi_scales(order, window):
     scales = [np.array([1.0])]
     for i in range(1, order + 1):
@@ -71,7 +79,11 @@ def deltas_ref(x, num_deltas, window, axis, target_axis, concatenate, pad_mode, 
     outs64 = [x.astype(np.float64)]
     for d in range(1, num_deltas + 1):
         M = d * window
-        xp = np.pad(xm, [(0, 0)] * (nd - 1) + [(M, M)], pad_mode, **pad_kwargs)
+        if callable(pad_mode):
+            # (the documented operation extends each vector along the filtered axis: a callable sees 1-D vectors with non-zero widths)
+            xp = np.apply_along_axis(lambda v: np.pad(v, (M, M), pad_mode, **pad_kwargs), -1, xm) if xm.size else np.pad(xm, [(0, 0)] * (nd - 1) + [(M, M)], "constant")
+        else:
+            xp = np.pad(xm, [(0, 0)] * (nd - 1) + [(M, M)], pad_mode, **pad_kwargs)
         y = np.zeros_like(xm)
         for j in range(-M, M + 1):
             y = y + scales[d][j + M] * xp[..., M + j: M + j + T]
@@ -303,7 +315,9 @@ def run_case(case, rec, mon=None):
             if mode in ("mean", "median", "maximum", "minimum") and rng.random() < 0.5:
                 kwargs = {"stat_length": int(rng.integers(1, 4))}
             if mode == "callable":
-                mode = _ramp_pad
+                mode = _ramp_pad if rng.random() < 0.5 else _pad_with
+                if mode is _pad_with and rng.random() < 0.5:
+                    kwargs = {"padder": float(rng.integers(-3, 4))}
             x = _data(rng, shape, dtype)
             x.setflags(write=False)
             if rng.random() < 0.1:
